@@ -114,6 +114,11 @@ DEFS = [
                      field("z", ("vec", U8), error="RecErr2")], error="RecErr", deny="default"),
     struct("FMap", [field("a", U8, mapfn=True), field("b", STR, mapfn=True, default=("expr", "String::from(\"d\")", rv("str", s="d"))),
                     field("c", U8, skip=True, mapfn=True), field("d", BOOL)], error="RecErr"),
+    # conversion + map + default on one field (added after seeded change C11-j: `map` fused into the `from` arm is skipped when the
+    # value comes from the default): map runs once per field of a succeeding container whatever the source of the value
+    struct("FFromMapDef", [field("a", U8, frm={"kind": "from", "ty": U8, "ref": False}, mapfn=True, default=("expr", "7", num_rv(7))),
+                           field("b", STR, frm={"kind": "try", "ty": STR, "ref": True}, mapfn=True, default=("expr", "String::from(\"dm\")", rv("str", s="dm"))),
+                           field("c", U8, frm={"kind": "from", "ty": U8, "ref": True}, mapfn=True), field("d", BOOL)], error="RecErr"),
     struct("FValidate", [field("a", U8), field("b", U8, default="trait")], error="RecErr", validate=True),
     struct("FMissing", [field("my_a", U8, missing_fn=True), field("b", BOOL, missing_fn=True, rename="bee"), field("c", U8)], error="RecErr", rename_all="camelCase"),
     struct("FDenyFn", [field("a", U8), field("sk", U8, skip=True), field("b_c", BOOL, default="trait")], error="RecErr", deny="fn", rename_all="camelCase"),
@@ -185,7 +190,7 @@ ENTRIES = [
     ("opt", ("hmap", "u8", ("arr", BOOL, 1))), ("tup", [("opt", U8), ("vec", ("vec", U8)), ("bmap", "String", I8)]), ("box", ("opt", ("box", STR))),
     ("vec", ("ref", "EUnit")), ("hmap", "String", ("ref", "ETagCamel")), ("bmap", "i32", ("ref", "SDefault")), ("opt", ("ref", "SMix")),
     ("vec", ("cs", "String")), ("hset", ("opt", U8)),
-    ("ref", "FFrom"), ("ref", "FTry"), ("ref", "FTryF"), ("ref", "FMap"), ("ref", "FValidate"), ("ref", "FMissing"), ("ref", "FDenyFn"), ("ref", "FAll"),
+    ("ref", "FFrom"), ("ref", "FTry"), ("ref", "FTryF"), ("ref", "FMap"), ("ref", "FFromMapDef"), ("ref", "FValidate"), ("ref", "FMissing"), ("ref", "FDenyFn"), ("ref", "FAll"),
     ("ref", "GTry"), ("ref", "GEnum"), ("ref", "GCTry"), ("vec", ("ref", "GTry")),
     # probe-free twins (no enter / exit events: judged at the end of the call against the declarative semantics)
     ("bare", "SPlain"), ("bare", "SThree"), ("bare", "SCamel"), ("bare", "SLower"), ("bare", "SRename"), ("bare", "SDeny"), ("bare", "SDefault"), ("bare", "SOpt"),
